@@ -616,9 +616,19 @@ def run_gpg_cases(recs, o, workdir, nthreads=8):
     ver = gpg_available()
     if not ver:
         return None
-    home = os.path.join(workdir, "home")
-    os.makedirs(home, mode=0o700)
-    gpg_run(home, ["--list-keys"])       # creates pubring/trustdb once, before the parallel invocations
+    tls = threading.local()
+    nhomes = [0]
+    hlock = threading.Lock()
+
+    def my_home():
+        """one private GNUPGHOME per worker thread: parallel gpg processes must not share a keybox lock"""
+        if not hasattr(tls, "home"):
+            with hlock:
+                nhomes[0] += 1
+                tls.home = os.path.join(workdir, "home%d" % nhomes[0])
+            os.makedirs(tls.home, mode=0o700)
+            gpg_run(tls.home, ["--list-keys"])       # creates pubring/trustdb once
+        return tls.home
 
     def one(args):
         i, r = args
@@ -643,7 +653,7 @@ def run_gpg_cases(recs, o, workdir, nthreads=8):
             f = os.path.join(workdir, "c%04d.pgp" % i)
             with open(f, "wb") as fh:
                 fh.write(octets)
-            rc, out, err = gpg_run(home, ["--debug", "2", "--list-packets", "--list-only", f])
+            rc, out, err = gpg_run(my_home(), ["--debug", "2", "--list-packets", "--list-only", f])
             stats["inv"] += 1
             if rc != 0:
                 bad("list-packets-failed", "gpg --list-packets exits with %d" % rc, stderr=err[-1500:])
